@@ -134,16 +134,17 @@ def get_division_candidate(
 
     """
     # Look for exponent candidates among divisors
+    # Each divisor element is divided by its single leading term: the largest
+    # non-zero term in lexicographical order. (Treating every term that is
+    # maximal under divisibility as leading makes the subtraction alternate
+    # between them forever.)
+    larger_nonzero = numpy.zeros(x2.shape, dtype=bool)
     for idx2 in reversed(numpy.lexsort(x2.exponents.T)):
         exponent2 = x2.exponents[idx2]
 
-        # Include coefficients where idx2 is non-zero and any potential
-        # candidates that is a better fit has coefficient zero. Exponent needs
-        # to be the biggest one around.
-        include2 = numpy.ones(x2.shape, dtype=bool)
-        for idx, exponent in enumerate(x2.exponents):
-            if numpy.all(exponent2 <= exponent):
-                include2 &= (x2.coefficients[idx] == 0) ^ (idx == idx2)
+        nonzero2 = x2.coefficients[idx2] != 0
+        include2 = nonzero2 & ~larger_nonzero
+        larger_nonzero |= nonzero2
         if not numpy.any(include2):
             continue
 
